@@ -86,9 +86,14 @@ Blocked == /\ Ev("Blocked")
            /\ bad' = bad \cup {<<l, "a thread blocked: a lock is held across an interaction with the outside">>}
            /\ UNCHANGED <<st, window, ref, cfgref, stats>>
 
+\* a request or a method call panicked in this schedule (C17; also no response reached the client)
+Panic == /\ Ev("Panic")
+         /\ bad' = bad \cup {<<l, "panic in a scheduled thread">>}
+         /\ UNCHANGED <<st, window, ref, cfgref, stats>>
+
 Init == l = 1 /\ st = ZeroState /\ window = EmptyFn /\ ref = EmptyFn /\ cfgref = EmptyFn /\ bad = {}
         /\ stats = [schedules |-> 0, commits |-> 0, requests |-> 0, raced |-> 0]
-Next == Ref \/ CfgRef \/ Sched \/ Begin \/ Commit \/ End \/ Blocked
+Next == Ref \/ CfgRef \/ Sched \/ Begin \/ Commit \/ End \/ Blocked \/ Panic
 Spec == Init /\ [][Next]_vars
 
 Final == (l = Len(Trace) + 1) =>
